@@ -285,7 +285,16 @@ impl DirEntry {
         for _ in name_utf16.len()..32 {
             writer.write_le_u16(0)?;
         }
-        writer.write_le_u16((name_utf16.len() as u16 + 1) * 2)?;
+        if self.obj_type == ObjType::Unallocated {
+            // According to the MS-CFB spec section 2.6.3, an unallocated entry
+            // is all zeros (apart from the sibling and child fields), so its
+            // name length is zero rather than the length of an empty name
+            // plus its terminator.
+            debug_assert!(name_utf16.is_empty());
+            writer.write_le_u16(0)?;
+        } else {
+            writer.write_le_u16((name_utf16.len() as u16 + 1) * 2)?;
+        }
         writer.write_all(&[self.obj_type.as_byte()])?;
         writer.write_all(&[self.color.as_byte()])?;
         writer.write_le_u32(self.left_sibling)?;
